@@ -18,4 +18,5 @@ THOROUGH = QUICK + [
 
 
 def run(ctx):
-    pc.run_configs(ctx, "C15", "at", THOROUGH if ctx.thorough else QUICK)
+    pc.run_configs(ctx, "C15", "at", THOROUGH if ctx.thorough else QUICK,
+                   spec_fidelity=[("S:ans-slave", QUICK[0][1], 2)])
